@@ -35,7 +35,8 @@ PART = {
          "(C18_writer_close_ok_implies_file, _file_of_ok_calls, _structurally_valid); any failed stream operation makes close return "
          "non-OK (C18_writer_failure_surfaces); after a call that reported FILE_WRITE the caller may carry on or retry, close still does "
          "not return OK (C18_writer_failed_call_poisons_close; the close without the ferror check = seeded change C05b-2 is the "
-         "kernel-checked counterexample C18_regression_F42: OK with stray bytes and a doubled total_byte_size). "
+         "kernel-checked counterexample C18_regression_F42: OK with stray bytes and both batches merged into one row group; since fix F23 a "
+         "retried finalisation no longer doubles total_byte_size, the model's `carry` component is gone). "
          "Tie: the driver RUNS this model in the harness's environment (fault schedule + glibc buffering) and compares, per line, the status "
          "of every call, the failure flag, the number AND content (hash) of the bytes the sink holds and every sink operation call by call, "
          "in all three buffering modes, for faults at every byte offset (step) / every operation / once transiently (statuses only for /dev/full); "
